@@ -1,5 +1,3 @@
-//go:build simsched
-
 package props
 
 import (
